@@ -115,7 +115,7 @@ func (s *StoreW) GetWorkload(ctx context.Context, id string) (r *types.Workload,
 	return
 }
 func (s *StoreW) GetWorkloads(ctx context.Context, ids []string) (r []*types.Workload, err error) {
-	err = s.do("GetWorkloads", joinSorted(ids), "", "", func() (e error) { r, e = s.Store.GetWorkloads(ctx, ids); return })
+	err = s.do("GetWorkloads", joinSorted(ids), "", strings.Join(ids, ","), func() (e error) { r, e = s.Store.GetWorkloads(ctx, ids); return })
 	return
 }
 func (s *StoreW) ListWorkloads(ctx context.Context, app, entry, node string, limit int64, labels map[string]string) (r []*types.Workload, err error) {
@@ -373,10 +373,12 @@ func (w *WalW) Log(typ string, item any) (wal.Commit, error) {
 }
 
 func (w *WalW) Recover(ctx context.Context) {
-	if _, err := w.ic.Before("wal", "Recover", "", "", ""); err != nil {
+	idx, err := w.ic.Before("wal", "Recover", "", "", "")
+	if err != nil {
 		return
 	}
 	w.WAL.Recover(ctx)
+	w.ic.After(idx, nil)
 }
 
 // Open returns the logged entries whose Commit has not succeeded.
